@@ -24,7 +24,7 @@ func genC05(t *rapid.T) C05Case {
 	o := ragen.GenOpt{
 		Rx:       ragen.RxOpt{Stress: 5, MaxDepth: 1},
 		MaxDepth: 2, MaxItems: 6, Flags: true, PrefixSuffix: true, Defs: true, DefsInPS: true,
-		Includes: true, Excepts: true, Pairs: true, IncludePS: true, IncludeDefs: true, Cmdline: true, IncludeInCmdline: true, StoreLoad: true, Noise: true,
+		Includes: true, Excepts: true, Pairs: true, IncludePS: true, IncludeDefs: true, Cmdline: true, IncludeInCmdline: true, StoreLoad: true, Noise: true, TrailWS: true,
 	}
 	if thorough() {
 		o.MaxDepth, o.MaxItems = 3, 8
